@@ -253,7 +253,8 @@ def run(ctx):
     cer = []
     forms = ['obj', 'dict', 'raw']
     for wt in wts:
-        for m, n in ([(2, 2), (2, 3)] if q else [(1, 2), (2, 2), (2, 3), (3, 3), (2, 4), (3, 5)]):
+        for m, n in ([(2, 2), (2, 3)] if q else [(1, 2), (2, 2), (2, 3), (3, 3), (2, 4)] +
+                     ([(3, 5)] if wt == 'segwit' else [])):
             # quick: ceremonies up to m+1 signing steps (n if smaller); thorough: one more step (a cosigner who
             # signs again / an extra cosigner after the threshold)
             ln = min(n, m + 1) + (0 if q else 1)
